@@ -27,7 +27,7 @@ for p in $PROP "$@"; do
   echo "$OUT" | grep -E "FAIL|ANALYSIS" | head -5 > $D/check_$p.txt
   DET="$DET $p:rc=$RC"
 done
-git -C /repo checkout -- .
+git -C /repo reset -q --hard HEAD
 /venv/bin/python - <<PY
 import json
 json.dump({"id":"$ID","breaks_property":"$PROP","needs_to_manifest":"""$NEEDS""",
